@@ -310,7 +310,7 @@ func c18UnknownSubstitution(r *Run) {
 		}, `"/a/b/c"`},
 	}
 	// the same for a selector that goes through a quantifier's value variable: the element that lacks the key against the element that holds u
-	for ui, u := range []interface{}{"none", "", 1, nil, true} {
+	for ui, u := range []interface{}{"none", "", 1, nil, true, json.Number("7"), json.Number("none")} {
 		for _, f := range []string{"any items as it { it.zone == none }", `all items as _, it { it.zone != "none" }`, "any items as it { it.zone is empty }", "any items as it { on in it.zone }", "any m as k, v { v.zone == none }", "all items as it { it.meta.zone == none }"} {
 			missing := map[string]interface{}{"items": []interface{}{map[string]interface{}{"a": 1, "meta": map[string]interface{}{}}, map[string]interface{}{"zone": "x", "meta": map[string]interface{}{"zone": "x"}}}, "m": map[string]interface{}{"p": map[string]interface{}{"a": 1}}}
 			with := map[string]interface{}{"items": []interface{}{map[string]interface{}{"a": 1, "zone": u, "meta": map[string]interface{}{"zone": u}}, map[string]interface{}{"zone": "x", "meta": map[string]interface{}{"zone": "x"}}}, "m": map[string]interface{}{"p": map[string]interface{}{"a": 1, "zone": u}}}
@@ -322,8 +322,8 @@ func c18UnknownSubstitution(r *Run) {
 			}
 		}
 	}
-	us := []interface{}{"none", "", 1, nil, []interface{}{"on", 1}, true, 1.5, map[string]interface{}{"on": 1}}
-	forms := []string{"%s == none", `%s != "none"`, "on in %s", "on not in %s", "%s is empty", "%s is not empty", "%s matches `^n`", "%s == 1", "any %s as x { x == on }", "all %s as x { x != on }", "not %s == none", "%s == none or %s == 1"}
+	us := []interface{}{"none", "", 1, nil, []interface{}{"on", 1}, true, 1.5, map[string]interface{}{"on": 1}, json.Number("7"), json.Number("1.5"), json.Number("none"), int8(7), uint16(7), float32(1.5)}
+	forms := []string{"%s == none", `%s != "none"`, "on in %s", "on not in %s", "%s is empty", "%s is not empty", "%s matches `^n`", "%s == 1", "any %s as x { x == on }", "all %s as x { x != on }", "not %s == none", "%s == none or %s == 1", `%s == "0x7"`, `%s != "07"`, "%s == 7", "7 in %s", "%s == 1.5", "%s matches `^7$`"}
 	for pi, p := range pairs {
 		for ui, u := range us {
 			for _, f := range forms {
